@@ -574,6 +574,32 @@ func (e *CEnv) call(n *ECall) *CV {
 			e.fail("setfield: field %s has sort %s, got %s", fn.Val, f.Sort, v.Sort)
 		}
 		return &CV{T: ft.e.sorts.UpdField(x.Sort, x.T, fn.Val, v.T), Sort: x.Sort, Type: x.Type}
+	case "local":
+		// local(name, Type): the local variable `name` of that type (when several
+		// locals share a source name)
+		id, ok := n.Args[0].(*EIdent)
+		if !ok || len(n.Args) != 2 || e.body == nil {
+			e.fail("local(name, Type)")
+		}
+		want := e.typeExpr(n.Args[1])
+		for _, blk := range e.body.fn.Blocks {
+			for _, in := range blk.Instrs {
+				al, ok := in.(*ssa.Alloc)
+				if !ok || al.Comment != id.Name {
+					continue
+				}
+				pt := types.Unalias(al.Type()).Underlying().(*types.Pointer).Elem()
+				if !types.Identical(types.Unalias(pt), types.Unalias(want)) {
+					continue
+				}
+				v, ok := e.body.vals[al]
+				if !ok || v.Addr == nil {
+					continue
+				}
+				return &CV{T: ft.load(e.cur, v.Addr), Type: pt, Sort: ft.sortOf(pt)}
+			}
+		}
+		e.fail("unknown identifier %q (no local of that type)", id.Name)
 	case "typeis":
 		// typeis(x, pkg.Type) / typeis(x, ptr(pkg.Type)): dynamic type test on an interface
 		x := e.eval(n.Args[0])
